@@ -10,6 +10,7 @@ import Usid.Driver.Dims
 import Usid.Driver.Reshape
 import Usid.Driver.Slice
 import Usid.Driver.MainW
+import Usid.Driver.SliceTo
 /-! Line-protocol driver over the hand-written models: one JSON request per line on stdin,
     one JSON response per line on stdout. -/
 namespace Usid.Driver
@@ -28,7 +29,8 @@ def handlers : List (String × (Json → R Json)) := [
   ("dims.sort", hDimsSort), ("uv.get", hUvGet), ("uv.rebuild", hUvRebuild),
   ("rs.to_nd", hRsToNd), ("rs.wrapper", hRsWrapper), ("rs.from_nd", hRsFromNd),
   ("slice.nd", hSliceNd), ("slice.2d", hSlice2d),
-  ("main.write", hMainWrite)
+  ("main.write", hMainWrite),
+  ("sliceto.run", hSliceTo)
 ]
 
 def respond (tbl : List (String × (Json → R Json))) (line : String) : String :=
